@@ -11,8 +11,8 @@ Print Assumptions c20_read_last_accepted.
 
 (* An update is accepted only if validly signed and (new key with room | supersedes the
    stored entry); it then replaces exactly that key. *)
-Theorem c20_put_accept_only_if : forall s k e valid tie s' r,
-  step s (Put k e valid tie) = (s', OPut true r) ->
+Theorem c20_put_accept_only_if : forall s k e exp valid tie s' r,
+  step s (Put k e exp valid tie) = (s', OPut true r) ->
   valid = true /\ r = Some e /\
   (  (alookup k (entries s) = None /\ (count s < limit s)%N)
   \/ (exists old, alookup k (entries s) = Some old /\ supersedes old e tie = true)) /\
@@ -22,16 +22,16 @@ Theorem c20_put_accept_only_if : forall s k e valid tie s' r,
 Proof. exact put_accept_only_if. Qed.
 Print Assumptions c20_put_accept_only_if.
 
-Theorem c20_put_accept_if : forall s k e tie,
+Theorem c20_put_accept_if : forall s k e exp tie,
   (  (alookup k (entries s) = None /\ (count s < limit s)%N)
   \/ (exists old, alookup k (entries s) = Some old /\ supersedes old e tie = true)) ->
-  snd (step s (Put k e true tie)) = OPut true (Some e).
+  snd (step s (Put k e exp true tie)) = OPut true (Some e).
 Proof. exact put_accept_if. Qed.
 Print Assumptions c20_put_accept_if.
 
 (* Otherwise the state is unchanged and the stored entry is returned with the error. *)
-Theorem c20_put_reject_unchanged : forall s k e valid tie s' r,
-  step s (Put k e valid tie) = (s', OPut false r) ->
+Theorem c20_put_reject_unchanged : forall s k e exp valid tie s' r,
+  step s (Put k e exp valid tie) = (s', OPut false r) ->
   s' = s /\ (valid = true -> forall old, alookup k (entries s) = Some old -> r = Some old).
 Proof. exact put_reject_unchanged. Qed.
 Print Assumptions c20_put_reject_unchanged.
@@ -59,18 +59,40 @@ Theorem c20_capacity_refuted : exists l, ~ (count (runs init l) <= limit (runs i
 Proof. exact cap_inv_refuted. Qed.
 Print Assumptions c20_capacity_refuted.
 
-(* The processed chain tip plays no part: entries whose expiration height has passed are neither
-   dropped nor hidden nor left out of the count.  Removing every [Tip] operation from a history
-   gives the same final state and the same observations for all other operations. *)
+(* Expiry.  The model carries what the code has: the expiration_height column ([exps]) and the
+   store's processed tip ([tip]); no operation reads either.  (a) Dropping every [Tip] from a
+   history changes no other observation and nothing of the final state but the tip itself.
+   (b) The stored expiration height of a key is the one passed with its last accepted update.
+   (c) An entry whose expiration height lies below the tip is still served (and, by
+   c20_count_is_metric / c20_read_last_accepted which quantify over histories with Tip
+   operations, still counted): the host never expires a registry entry. *)
 Theorem c20_chain_tip_is_irrelevant : forall (l : list op),
-  runs init (filter (fun o => negb (is_tip o)) l) = runs init l /\
+  eq_but_tip (runs init (filter (fun o => negb (is_tip o)) l)) (runs init l) /\
   trace init (filter (fun o => negb (is_tip o)) l) = filter (fun x => negb (is_tip (fst x))) (trace init l).
-Proof. exact (fun l => conj (runs_without_tips init l) (trace_without_tips init l)). Qed.
+Proof. exact without_tips. Qed.
 Print Assumptions c20_chain_tip_is_irrelevant.
+
+Theorem c20_expiration_height_is_last_accepted : forall (l : list op) (k : N),
+  snd (step (runs init l) (Exp k)) = OExp (last_accepted_exp k None (trace init l)).
+Proof. exact exp_last_accepted. Qed.
+Print Assumptions c20_expiration_height_is_last_accepted.
+
+Theorem c20_expired_entry_is_served : forall (l : list op) (k : N),
+  expired (runs init l) k ->
+  exists e, snd (step (runs init l) (Get k)) = OGet (Some e) /\
+            last_accepted k None (trace init l) = Some e.
+Proof. exact expired_entry_is_served. Qed.
+Print Assumptions c20_expired_entry_is_served.
 
 (* non-vacuity: an accepted and a rejected update exist *)
 Example c20_nonvacuous :
-  snd (step (runs init [SetLimit 2; Put 1 e1 true false]) (Put 1 e1 true false))
+  snd (step (runs init [SetLimit 2; Put 1 e1 100 true false]) (Put 1 e1 100 true false))
     = OPut false (Some e1)
-  /\ never_lowers init [SetLimit 2; Put 1 e1 true false; Put 2 e1 true false] = true.
+  /\ never_lowers init [SetLimit 2; Put 1 e1 100 true false; Put 2 e1 100 true false] = true.
 Proof. vm_compute; split; reflexivity. Qed.
+
+(* non-vacuity of the expiry statements: the tip beyond the entry's expiration height *)
+Example c20_expired_nonvacuous :
+  expired (runs init [SetLimit 1; Put 1 e1 100 true false; Tip 200]) 1 /\
+  snd (step (runs init [SetLimit 1; Put 1 e1 100 true false; Tip 200]) Info) = OInfo 1 1 1.
+Proof. exact expired_witness. Qed.
